@@ -310,16 +310,24 @@ fn gen_image(rng: &mut Rng, thorough: bool) -> Value {
 }
 
 fn gen_case(rng: &mut Rng, thorough: bool) -> Value {
-    let n = match rng.below(4) {
-        0 | 1 => 1,
-        2 => 2,
-        _ => 3,
+    let n = match rng.below(12) {
+        0..=5 => 1,
+        6 | 7 | 8 => 2,
+        9 | 10 => 3,
+        _ => 4 + rng.below(2) as usize,
     };
     let imgs: Vec<Value> = (0..n).map(|_| gen_image(rng, thorough)).collect();
+    // a draw sequence in which every image occurs, repeats are interleaved and some first draws
+    // come after cache hits
     let mut draws: Vec<usize> = (0..n).collect();
-    // repeated draws of the same content, interleaved
-    for _ in 0..rng.below(3) {
+    for _ in 0..rng.below(n as u64 + 3) {
         draws.push(rng.below(n as u64) as usize);
+    }
+    if rng.chance(1, 2) {
+        for i in (1..draws.len()).rev() {
+            let j = rng.below(i as u64 + 1) as usize;
+            draws.swap(i, j);
+        }
     }
     let bg = if rng.chance(1, 2) {
         // mostly opaque backgrounds, some translucent ones (un-premultiplication in the compositing)
@@ -437,8 +445,9 @@ fn gen_alpha_sweep(rng: &mut Rng) -> Value {
     json!({"bg": bg, "imgs": [{"w": w, "h": h, "data": data, "crop": Value::Null}], "draws": [0]})
 }
 
-/// exhaustive validation of the regenerated tables against the real code:
-/// scale(pre(x)) through one-colour opaque images, scale(y) through fully transparent images over bg
+/// validation of the regenerated tables against the real code: scale(pre(x)) for all 256 values of every
+/// channel through one-colour opaque images; `scale` on values off the reduced grid is only observed
+/// through the averaged palette entries of images with more than 256 colours (random cases)
 fn table_cases() -> Vec<Value> {
     let mut v = vec![];
     for chunk in 0..8u32 {
@@ -451,7 +460,9 @@ fn table_cases() -> Vec<Value> {
         let draws: Vec<usize> = (0..32).collect();
         v.push(json!({"bg": Value::Null, "imgs": imgs, "draws": draws}));
     }
-    for y in 0..256u32 {
+    // fully transparent pixels over a background: the composited colour is the background itself
+    // (every 8th value; since the fix beaccdc this also goes through the reduction, like the family above)
+    for y in (0..256u32).step_by(8) {
         let y = y as u8;
         let img = json!({"w": 2, "h": 6, "data": vec![json!([10, 200, 77, 0]); 12], "crop": Value::Null});
         v.push(json!({"bg": [y, y.wrapping_add(85), y.wrapping_add(170), 255], "imgs": [img], "draws": [0, 0]}));
